@@ -208,7 +208,37 @@ def planted_case(rng, idx):
             if not rules or r in rules:
                 removed[i].add(k)
 
+    # a stack: 2-4 directives in force at once on one statement - next-line comments, trailing falco-ignore comments (block
+    # comments, so that several fit on the line) and falco-ignore-start comments closed together by ONE bare falco-ignore-end -
+    # with disjoint, overlapping, empty (= all) and repeated rule lists in any order: what is ignored is the UNION
     used_range = False
+    plain0 = [i for i in range(n) if not body[i][2] and body[i][1]]
+    if plain0 and rng.random() < 0.45:
+        i = rng.choice(plain0)
+        pool = names_of(i) + ["acl/syntax", "function/arguments", "operator/assignment"]
+        kinds = rng.choice([["next"], ["this"], ["start"], ["next", "this", "start"], ["next", "start"]])
+        started = False
+        for t in range(rng.randint(2, 4)):
+            kind = rng.choice(kinds)
+            rules = [] if rng.random() < 0.2 else rng.sample(pool, rng.choice([1, 1, 2]))
+            if rules and rng.random() < 0.15:
+                rules = rules + [rules[0]]
+            if kind == "next":
+                lead[i].insert(rng.randrange(len(lead[i]) + 1), com("next", rules))
+                cover(i, rules)
+            elif kind == "this":
+                word = "falco-ignore" + ((" " + ", ".join(rules)) if rules else "")
+                trail[i].append("/* %s */" % word)
+                cover(i, rules)
+            elif not used_range or started:
+                if not started:
+                    j_end = rng.choice([k for k in range(i + 1, n) if not body[k][2]] + [n])
+                    lead[j_end].insert(0, com("end", []))          # one bare end closes every pair of the stack
+                    started = used_range = True
+                lead[i].insert(rng.randrange(len(lead[i]) + 1), com("start", rules))
+                for k in range(i, j_end):
+                    cover(k, rules)
+        tags.append("ignore:stack")
     for _ in range(rng.choice([0, 0, 1, 1, 2])):
         form = rng.choice(["next", "this", "range", "sub"])
         plain = [i for i in range(n) if not body[i][2]]
@@ -324,6 +354,17 @@ def planted_seeds():
        diags=[("function/arguments", E), ("subroutine/boilerplate-macro", W)])
     mk("only-includes-one-broken", 'include "a";\ninclude "b";\n', [{"a": ok_mod, "b": bad_mod}], pi=True)
     mk("ignored-everything", '# falco-ignore-next-line\nsub vcl_recv {\n  set req.http.B = std.itoa(0, 1, 2);\n  declare local var.u STRING;\n}\n')
+    # several directives in force at once: the union counts
+    mk("stack-next-line-earlier-names-it", 'sub vcl_recv {\n  #FASTLY RECV\n  # falco-ignore-next-line function/arguments\n  # falco-ignore-next-line acl/syntax\n  set req.http.B = std.itoa(0, 1, 2);\n}\n')
+    mk("stack-next-line-later-names-it", 'sub vcl_recv {\n  #FASTLY RECV\n  # falco-ignore-next-line acl/syntax\n  // falco-ignore-next-line function/arguments\n  set req.http.B = std.itoa(0, 1, 2);\n}\n')
+    mk("stack-all-then-rule-list", 'sub vcl_recv {\n  #FASTLY RECV\n  # falco-ignore-next-line\n  # falco-ignore-next-line acl/syntax\n  set req.http.A = undefined.v;\n}\n')
+    mk("stack-trailing", 'sub vcl_recv {\n  #FASTLY RECV\n  set req.http.B = std.itoa(0, 1, 2); /* falco-ignore function/arguments */ /* falco-ignore acl/syntax */\n}\n')
+    mk("stack-starts-one-end", 'sub vcl_recv {\n  #FASTLY RECV\n  # falco-ignore-start function/arguments\n  # falco-ignore-start operator/assignment\n'
+       '  set req.http.B = std.itoa(0, 1, 2);\n  set req.http.H = 10;\n  # falco-ignore-end\n  set req.http.H2 = 10;\n}\n', diags=[("operator/assignment", E)])
+    mk("stack-start-all-then-start-rule", 'sub vcl_recv {\n  #FASTLY RECV\n  # falco-ignore-start\n  # falco-ignore-start acl/syntax\n'
+       '  set req.http.A = undefined.v;\n  # falco-ignore-end\n}\n')
+    mk("stack-mixed-kinds-none-names-it", 'sub vcl_recv {\n  #FASTLY RECV\n  # falco-ignore-start acl/syntax\n  # falco-ignore-next-line table/syntax\n'
+       '  set req.http.B = std.itoa(0, 1, 2); // falco-ignore backend/syntax\n  # falco-ignore-end\n}\n', diags=[("function/arguments", E)])
     mk("warnings-and-infos", 'sub vcl_recv {\n  error 1000;\n  declare local var.u STRING;\n}\n',
        diags=[("error-statement/code", I), ("unused/variable", W), ("subroutine/boilerplate-macro", W)])
     return out
